@@ -681,6 +681,7 @@ Section StmtInd.
   Hypothesis H_SLam : forall f ps e, P (SLam f ps e).
   Hypothesis H_SPat : forall k ids e, P (SPat k ids e).
   Hypothesis H_SPCall : forall f args, P (SPCall f args).
+  Hypothesis H_SNPat : forall p e, P (SNPat p e).
 
   Fixpoint stmt_ind' (s : stmt) : P s :=
     let fix go (ss : list stmt) : Forall P ss :=
@@ -700,6 +701,7 @@ Section StmtInd.
     | SLam f ps e => H_SLam f ps e
     | SPat k ids e => H_SPat k ids e
     | SPCall f args => H_SPCall f args
+    | SNPat p e => H_SNPat p e
     end.
 End StmtInd.
 
@@ -714,6 +716,7 @@ Proof.
     apply forallb_flat_map. apply Forall_forall. intros [[pid t] [d|]] _; simpl; rewrite ?lower_e_hck; reflexivity.
   - rewrite forallb_map. apply forallb_true_Forall. apply Forall_forall. intros x _. reflexivity.
   - rewrite forallb_map. apply forallb_true_Forall. apply Forall_forall. intros x _. apply lower_e_hck.
+  - rewrite forallb_map. apply forallb_true_Forall. apply Forall_forall. intros x _. reflexivity.
 Qed.
 
 Lemma lower_hcheck : forall cp, hcheck (lower cp) = true.
